@@ -132,6 +132,7 @@ pub fn big_strategy(kinds: Vec<Kind>, thorough: bool) -> BoxedStrategy<BigCase> 
                 v.push((2, Just(BOp::GetLru).boxed()));
                 v.push((3, prop_oneof![Just(0u32), Just(1), Just(2), Just(10), Just(255), Just(256), Just(600), Just(4096), Just(65_536), Just(70_000), Just(200_000), Just(3), Just(5)].prop_map(|to| BOp::Resize { to, rel: false }).boxed()));
                 v.push((1, (0u32..4).prop_map(|to| BOp::Resize { to, rel: true }).boxed()));
+                v.push((2, Just(BOp::Resize { to: 0, rel: false }).boxed()));
             }
             (Just(kind), Just(a), Just(b), Just(w), Just(prefill), prop::collection::vec(proptest::strategy::Union::new_weighted(v), 1..=(if thorough { 40 } else { 20 })))
         })
